@@ -224,14 +224,26 @@ class Decoder:
     records every part (kind, offset relative to the enclosing object) for the alignment claims"""
 
     def __init__(self, mem, getword=None):
+        """mem: a bytes-like memory image, or an accessor with .word(a) / .bytes(a, n)
+        (addresses may then be symbolic terms)"""
+        self.acc = mem if hasattr(mem, "word") else None
         self.mem = mem
         self.parts = []  # (path, abs offset, parent abs offset)
         self.extent = {}
 
     def word(self, a):
+        if self.acc is not None:
+            return self.acc.word(a)
         if a < 0 or a + 8 > len(self.mem):
             raise DecodeError(f"word read outside memory at {a}")
         return _struct.unpack_from("<q", self.mem, a)[0]
+
+    def raw(self, a, n, what):
+        if self.acc is not None:
+            return self.acc.bytes(a, n)
+        if a < 0 or a + n > len(self.mem):
+            raise DecodeError(f"{what} outside memory")
+        return bytes(self.mem[a : a + n])
 
     def decode(self, t, off, path="$", parent=None):
         k = t[0]
@@ -239,16 +251,14 @@ class Decoder:
             self.parts.append((path, off, parent))
         if k == "scalar":
             n = ISZ[t[1]]
-            if off < 0 or off + n > len(self.mem):
-                raise DecodeError(f"{path}: scalar outside memory")
-            return _struct.unpack_from(FMT[t[1]], self.mem, off)[0]
+            return _struct.unpack(FMT[t[1]], self.raw(off, n, f"{path}: scalar"))[0]
         if k == "string":
             S = self.word(off)
             if S < 9:
                 raise DecodeError(f"{path}: string size word {S} < 9")
-            raw = bytes(self.mem[off + 8 : off + S])
-            if len(raw) != S - 8:
-                raise DecodeError(f"{path}: string outside memory")
+            if S > (1 << 24):
+                raise DecodeError(f"{path}: string size word {S} implausible")
+            raw = self.raw(off + 8, S - 8, f"{path}: string")
             if b"\x00" not in raw:
                 raise DecodeError(f"{path}: string not NUL terminated within its size")
             return raw[: raw.index(b"\x00")].decode("utf8")
@@ -273,6 +283,8 @@ class Decoder:
                 a += 8
                 if shape[kx] < 0:
                     raise DecodeError(f"{path}: negative dimension")
+                if shape[kx] > (1 << 16):
+                    raise DecodeError(f"{path}: dimension word {shape[kx]} implausible for the sample")
             strides = [None] * p["nd"]
             acc = p["w"]
             for ax in reversed(p["order"]):
@@ -290,7 +302,8 @@ class Decoder:
                 if not axes:
                     pos = off + p["data_offset"] + sum(i * s for i, s in zip(prefix, strides))
                     if p["isz"] is not None:
-                        return self.decode(t[1], pos, f"{path}{list(prefix)}", off)
+                        # scalar items are packed at their item size; compound static items are parts
+                        return self.decode(t[1], pos, f"{path}{list(prefix)}", off if t[1][0] != "scalar" else None)
                     e = self.word(pos)
                     return self.decode(t[1], off + e, f"{path}{list(prefix)}", off)
                 return [build(prefix + (i,), axes[1:]) for i in range(axes[0])]
